@@ -111,6 +111,39 @@ class OneShot:
         return self.items.pop(0)
 
 
+class BadHtml:
+    """An object whose __html__ fails: the failure happens while the
+    engine converts an expression's value, not while it evaluates it."""
+
+    def __init__(self, cls: str, sink, site) -> None:
+        self.cls, self.sink, self.site = cls, sink, site
+
+    def __html__(self):
+        exc = ZOO[self.cls]()
+        if self.sink is not None:
+            self.sink.append((self.site, "html", exc))
+        raise exc
+
+
+class BadIter:
+    """An iterator that yields n items and then fails in __next__."""
+
+    def __init__(self, n: int, cls: str, sink, site) -> None:
+        self.left, self.cls, self.sink, self.site = n, cls, sink, site
+
+    def __iter__(self):
+        return self
+
+    def __next__(self):
+        if self.left > 0:
+            self.left -= 1
+            return self.left
+        exc = ZOO[self.cls]()
+        if self.sink is not None:
+            self.sink.append((self.site, "next", exc))
+        raise exc
+
+
 _DEFAULT = [None]
 
 
@@ -121,8 +154,12 @@ def default_marker():
     return _DEFAULT[0]
 
 
-def make_value(spec: dict):
+def make_value(spec: dict, sink=None, site=None):
     v = spec["v"]
+    if v == "badhtml":
+        return BadHtml(spec["cls"], sink, site)
+    if v == "baditer":
+        return BadIter(spec["n"], spec["cls"], sink, site)
     if v == "none":
         return None
     if v == "str":
@@ -166,12 +203,12 @@ class Probe:
         if do is None:
             do = self.plan.get((k, "*"))
         if do is None:
-            return make_value(self.sites[str(k)])
+            return make_value(self.sites[str(k)], self.raised, k)
         if do[0] == "raise":
             exc = ZOO[do[1]]()
             self.raised.append((k, n, exc))
             raise exc
-        return make_value(do[1])
+        return make_value(do[1], self.raised, k)
 
 
 class Handler:
